@@ -18,7 +18,7 @@
 //@ struct src/xercesc/internal/XMLReader.hpp XMLReader only=auto
 
 XMLSize_t GR;        /* ghost index into the carried raw bytes; harness-chosen, in no assigns clause */
-XMLSize_t STREAM_R;  /* ghost: what the stream returned (written by the stream contract only) */
+XMLSize_t STREAM_R, STREAM_SEQ;  /* ghosts: what the last stream read returned / number of stream reads (written by the stream contract only) */
 /* observation ghosts, written only by the transcoder contract: call counter, and for the LAST call the offset of srcData in
    fRawByteBuf, srcCount, bytesEaten, return value */
 XMLSize_t XC_SEQ, XC_SRCOFS, XC_SRCCOUNT, XC_EATEN, XC_RET;
@@ -53,9 +53,9 @@ throws XMLReader_refreshRawBuffer XMLTranscoder_transcodeFrom
 contract
 //@ include XMLReader_xcodeMoreChars.contract.inc
 loop 1
-__CPROVER_assigns(charsDone, bytesEaten, needMode, fRawBufIndex, fRawBytesAvail, __CPROVER_object_upto(fRawByteBuf, sizeof(fRawByteBuf)), __CPROVER_object_upto(bufToFill, maxChars * sizeof(XMLCh)), __CPROVER_object_upto(charSizes, maxChars), STREAM_R, XC_SEQ, XC_SRCOFS, XC_SRCCOUNT, XC_EATEN, XC_RET, verif_thrown, verif_throw_type, verif_throw_code)
+__CPROVER_assigns(charsDone, bytesEaten, needMode, fRawBufIndex, fRawBytesAvail, __CPROVER_object_upto(fRawByteBuf, sizeof(fRawByteBuf)), __CPROVER_object_upto(bufToFill, maxChars * sizeof(XMLCh)), __CPROVER_object_upto(charSizes, maxChars), STREAM_R, STREAM_SEQ, XC_SEQ, XC_SRCOFS, XC_SRCCOUNT, XC_EATEN, XC_RET, verif_thrown, verif_throw_type, verif_throw_code)
 __CPROVER_loop_invariant(!verif_thrown && fRawBufIndex <= fRawBytesAvail && fRawBytesAvail <= kRawBufSize && charsDone <= maxChars)
-__CPROVER_loop_invariant(XC_SEQ >= __CPROVER_loop_entry(XC_SEQ))
+__CPROVER_loop_invariant(XC_SEQ >= __CPROVER_loop_entry(XC_SEQ) && STREAM_SEQ >= __CPROVER_loop_entry(STREAM_SEQ))
 __CPROVER_loop_invariant((XC_SEQ == __CPROVER_loop_entry(XC_SEQ)) ==> (bytesEaten == 0 && !needMode))
 __CPROVER_loop_invariant((XC_SEQ != __CPROVER_loop_entry(XC_SEQ)) ==> (bytesEaten == XC_EATEN && charsDone == XC_RET && (bytesEaten == 0 ==> needMode)))
 __CPROVER_loop_invariant((bytesEaten != 0) ==> (fRawBufIndex == XC_SRCOFS + XC_EATEN && fRawBytesAvail == XC_SRCOFS + XC_SRCCOUNT))
